@@ -158,6 +158,26 @@ with jump_ok_l (j : jctx) (l : stmts) : bool :=
 with jump_ok_c (j : jctx) (cs : cases) : bool :=
   match cs with CNil => true | CCons _ _ _ b r => jump_ok_l j b && jump_ok_c j r end.
 
+(* no statement starts with a function (function declaration / arrow-expression statement): the
+   programs on which the function-start key collision (known finding, class C) cannot occur *)
+Fixpoint nofn (s : stmt) : bool :=
+  match s with
+  | SFnDecl _ _ _ _ | SArrowStmt _ _ _ => false
+  | SBlock _ b => nofn_l b
+  | SIf _ _ a => nofn a
+  | SIfElse _ _ a b => nofn a && nofn b
+  | SWhile _ _ b | SDoWhile _ b _ | SFor _ _ b | SForIn _ b | SForOf _ b | SLabel _ _ b => nofn b
+  | SSwitch _ cs => nofn_c cs
+  | STry _ _ blk _ hb _ fb => nofn_l blk && nofn_l hb && nofn_l fb
+  | _ => true
+  end
+with nofn_l (l : stmts) : bool :=
+  match l with SNil => true | SCons s r => nofn s && nofn_l r end
+with nofn_c (cs : cases) : bool :=
+  match cs with CNil => true | CCons _ _ _ b r => nofn_l b && nofn_c r end.
+Definition no_fn_stmtb (p : program) : bool := nofn_l (p_body p).
+Definition no_fn_stmt (p : program) : Prop := no_fn_stmtb p = true.
+
 Fixpoint has_default (cs : cases) : bool :=
   match cs with CNil => false | CCons _ d _ _ r => d || has_default r end.
 
